@@ -372,7 +372,7 @@ def rule_uses(ctx):
         a = arms.get(v)
         if a is None:
             continue
-        binds, _rest = a10.pattern_bindings(a["pat"])
+        binds, _rest = a10.pattern_bindings(a["pat"], v)
         for f in a10.node_fields(vd):
             b = binds.get(f)
             if not b or b == "<pattern>":
@@ -440,7 +440,7 @@ def rule_uses(ctx):
         if a is None:
             ctx.bad(R, "Statement::%s/arm-missing" % v, "no arm")
             continue
-        binds, _rest = a10.pattern_bindings(a["pat"])
+        binds, _rest = a10.pattern_bindings(a["pat"], v)
         for f in a10.node_fields(vd):
             b = binds.get(f)
             if not b or b == "<pattern>":
